@@ -40,7 +40,7 @@ def run(c):
         c.sample({"request": k, "impl": v[:400]})
     c.cov["search"] = "Lean monitors checkLowerFlat/checkLowerMem/checkLiftMem/checkCall on the real trees, seeded+boundary values, ptr 4 and 8"
     c.cov["partial_obligations"] = [
-        "lowering of strings/lists/maps (allocating; element loops): theorems open; covered by correspondence + monitors (lifting them from memory is proved: load_correct)"]
+        "flat lowering of strings/lists/maps (lower_flat on list-bearing parameters): theorem open; covered by correspondence + monitors (lowering them to memory and lifting them from memory are proved: store_correct_all, load_correct)"]
     c.assumptions += ["layout (alignment/elem_size/offsets) is the spec's, evaluated at both widths and compared with wit-parser's symbolic SizeAlign on every generated type (wit-parser itself is external)",
                       "the SSA -> tree canonicalisation in harness/abi-trace (inlining of pure single-assignment instructions)",
                       "instruction meanings (Abi/Sem.lean) follow the instruction documentation in abi.rs"]
